@@ -47,7 +47,9 @@ func runC13(c *Ctx) {
 	}
 	// shared with C17: every Offset/Extent lies inside the unknown string - the byte range of a candidate ends with the
 	// last token of the range, not with the token behind it (R17.4)
-	borrowRules(c, []string{"R17.4"}, runC17)
+	borrowRules(c, []string{"R17.4", "R17.1"}, runC17)
+	// shared with C14: NearestMatch/MultipleMatch keep no result or scratch state between calls (R14.5)
+	checkV1SharedWrites(c, p)
 	total, _ := checkMustCompile(c, p, "R13.1", core.RootMod)
 	c.R.RequireMin("R13.1", "regexp.MustCompile call sites in the root module", total, 25)
 	checkRegisteredValueQuoted(c, p)
